@@ -292,6 +292,11 @@ func (s *Stream) startConsume(consumer Consumer, packetType PacketType, extra st
 	simhook.Y("stream.startConsume.betweenAddAndGo")
 
 	go c.consume()
+
+	// 流可能在消费者加入的过程中被关闭，关闭时的清理会错过该消费者，这里补做一次
+	if atomic.LoadInt32(&s.status) != StreamOK {
+		s.StopConsume(c.cid)
+	}
 	return c.cid
 }
 
